@@ -2,6 +2,7 @@ package kafka
 
 import (
 	"context"
+	"errors"
 
 	"github.com/ozontech/file.d/pipeline"
 	insaneJSON "github.com/ozontech/insane-json"
@@ -89,4 +90,55 @@ func VerifH_C19_kafkaRecords() {
 		}
 	}
 	vf.Reach("produced")
+}
+
+// a client that rejects the records of one topic (its partition leader is unavailable) and takes the others
+type verifPartialClient struct{ calls int }
+
+var errVerifProduce = errors.New("verif: leader not available")
+
+func (c *verifPartialClient) ProduceSync(ctx context.Context, rs ...*kgo.Record) kgo.ProduceResults {
+	c.calls++
+	var out kgo.ProduceResults
+	for _, r := range rs {
+		res := kgo.ProduceResult{Record: r}
+		if r.Topic == "bad" {
+			res.Err = errVerifProduce
+		}
+		out = append(out, res)
+	}
+	return out
+}
+func (c *verifPartialClient) Close() {}
+
+// C09 (sink side): the kafka output reports a batch as sent only when every record of it was accepted; when
+// the broker rejects some records (first, middle or last of the batch) out() reports the failure so that the
+// batch is retried / routed instead of being committed as sent.
+func VerifH_C09_kafkaPartialFailure() {
+	cl := &verifPartialClient{}
+	p := &Plugin{config: &Config{BatchSize_: 3, DefaultTopic: "def", UseTopicField: true, TopicField: "topic"}, avgEventSize: 16, client: cl, ctx: context.Background()}
+	n := 1 + vf.Choose("events", 3)
+	var evs []*pipeline.Event
+	anyBad := false
+	for i := 0; i < n; i++ {
+		doc := `{"k":1}`
+		if vf.Choose("rejected", 2) == 1 {
+			doc = `{"k":1,"topic":"bad"}`
+			anyBad = true
+		}
+		root := insaneJSON.Spawn()
+		_ = root.DecodeString(doc)
+		evs = append(evs, &pipeline.Event{Root: root, Size: len(doc)})
+	}
+	var wd pipeline.WorkerData
+	err := p.out(&wd, pipeline.NewPreparedBatch(evs))
+	if vf.Param("twin", 0) == 1 {
+		vf.Assert((err == nil) == anyBad, "batch-reported-sent-only-when-every-record-was-accepted")
+		return
+	}
+	vf.Assert((err == nil) == !anyBad, "batch-reported-sent-only-when-every-record-was-accepted")
+	vf.Assert(cl.calls == 1, "one-produce-call-per-attempt")
+	if anyBad {
+		vf.Reach("partial-failure")
+	}
 }
